@@ -13,7 +13,7 @@ PID = "C20"
 N, D = 10, 3
 MD_FC, MD_SC = 2, 10
 RF_FC, RF_SC = 1000, 2
-T0 = 1394368230
+T0 = 1394333980  # 2014-03-09T02:59:40Z
 
 FIXED_LO = md.first_of_ts(T0, N, D)
 FIXED_HI = md.first_of_ts(T0 + 600, N, D)
@@ -64,6 +64,19 @@ def run_history(seq):
             part["violations"].append(core.Violation(key, dict(case, **extra), detail))
 
     try:
+        # an unrelated data set with a channel of the same name, read first in this very process
+        other = os.path.join(top, "_other_dataset")
+        och = os.path.join(other, "ch0")
+        os.makedirs(os.path.join(och, "metadata"))
+        ocfg = rf.Cfg(n=N, d=D, fc=RF_FC, sc=RF_SC, start=md.first_of_ts(T0 - 500, N, D), cont=False)
+        ow = rf.open_writer(drf, och, ocfg)
+        ow.rf_write(rf.make_values(ocfg, seed, ocfg["start"], 4))
+        ow.close()
+        omw = drf.DigitalMetadataWriter(os.path.join(och, "metadata"), MD_SC, MD_FC, N, D, "metadata")
+        omw.write(ocfg["start"] + 1, {"v": -7, "txt": "other data set"})
+        orr = drf.DigitalRFReader(other)
+        orr.read_metadata(ocfg["start"], ocfg["start"] + 3, "ch0")
+        top = os.path.join(top, "dataset")
         chdir = os.path.join(top, "ch0")
         mdir = os.path.join(chdir, "metadata")
         os.makedirs(mdir)
@@ -192,7 +205,7 @@ def run_history(seq):
         if not part["samples"]:
             part["samples"].append({"history": seq, "metadata_indices": sorted(written)})
     finally:
-        core.rm(top)
+        core.rm(os.path.dirname(top) if os.path.basename(top) == "dataset" else top)
     return part
 
 
